@@ -359,7 +359,7 @@ def plans(prop, tier):
               ("v6tok-wrap", B(InitOnline=True, SeqStart=1022, MaxVital=2, MaxFaults=1, MaxClock=1))]
         dr = [(m, "random", 1, 400) for m in ("v6tok", "v6plain", "v7")]
         if not q:
-            mc += [("v6tok-L", B(Senders={"c", "s"}, MaxVital=1, MaxNV=1, MaxFaults=2, MaxClock=2, MaxInFlight=2)),
+            mc += [("v6tok-L", B(Senders={"c", "s"}, MaxVital=1, MaxNV=0, MaxFaults=2, MaxClock=2, MaxInFlight=2)),
                    ("v7-L", B(V7=True, MaxVital=2, MaxNV=1, MaxFaults=2, MaxClock=2)),
                    ("v6tok-wrap-L", B(InitOnline=True, SeqStart=1021, MaxVital=3, MaxFaults=2, MaxClock=2))]
             ex += [("v6tok-nv", B(MaxVital=1, MaxNV=1, MaxFaults=1, MaxClock=2)),
@@ -437,9 +437,10 @@ def run_property(ctx, prop):
                         "no datagram delayed across 1024 sequence numbers", "callers only make calls the state permits",
                         "verif hook projection (connection::verif) is faithful to the private state"]
     # 1. the model itself
-    jobs = [(model_check, (ctx, n, c, 3, 1500 if ctx.tier == "thorough" else 400, False)) for n, c in mc]
-    jobs += [(model_check, (ctx, n, c, 3, 2400 if ctx.tier == "thorough" else 400, True)) for n, c in live]
-    for (n, c), res in zip(mc + live, run_parallel(jobs, 4)):
+    th = ctx.tier == "thorough"
+    jobs = [(model_check, (ctx, n, c, 6 if th else 3, 3000 if th else 400, False)) for n, c in mc]
+    jobs += [(model_check, (ctx, n, c, 6 if th else 3, 3000 if th else 400, True)) for n, c in live]
+    for (n, c), res in zip(mc + live, run_parallel(jobs, 3 if th else 4)):
         if not res.ok:
             ctx.report("model:%s:%s" % (n, res.violated or "error"),
                        "the specification itself violates %s: %s" % (res.violated, (res.error or res.out[-1500:])),
